@@ -49,31 +49,29 @@ ErrorTag == <<91, 101, 114, 114, 111, 114, 93>>       \* [error]
 PrefixCompat(a, b) == IsPrefix(a, b) \/ IsPrefix(b, a)
 
 \* ---- per-command events
-StepOK(e) ==
-  LET T == Step(m, prog) IN
+\* (T is the specification's step from m, computed once per event by Step1)
+StepOK(e, T) ==
   /\ Running(m, prog) /\ T.status = "run"
   /\ e.pc = m.pc /\ e.next = T.pc /\ e.cur = T.cur
   /\ StOf(e.st) = T.st
   /\ e.out = T.out /\ e.err = T.err
 
-EventKind(e) ==
+EventKind(e, T) ==
   \* "ok" | "bad" | "skip" (nothing claimed: unspecified behaviour or a cut)
   IF e.ev = "step" THEN
        IF ~Running(m, prog) THEN "bad"
-       ELSE IF Step(m, prog).status = "unspec" THEN "skip"
-       ELSE IF StepOK(e) THEN "ok" ELSE "bad"
+       ELSE IF T.status = "unspec" THEN "skip"
+       ELSE IF StepOK(e, T) THEN "ok" ELSE "bad"
   ELSE IF e.ev = "end" THEN (IF m.status = "run" /\ m.pc = Len(prog) THEN "ok" ELSE "bad")
   ELSE IF e.ev = "exited" THEN
        IF ~Running(m, prog) THEN "bad"
-       ELSE LET T == Step(m, prog) IN
-            IF T.status = "unspec" THEN "skip"
+       ELSE IF T.status = "unspec" THEN "skip"
             ELSE IF /\ T.status = (IF e.code = 0 THEN "exit0" ELSE IF e.code = 1 THEN "exit1" ELSE "none")
                     /\ e.out = T.out /\ e.err = T.err            \* all earlier output delivered
                  THEN "ok" ELSE "bad"
   ELSE IF e.ev = "error" THEN
        IF ~Running(m, prog) THEN "bad"
-       ELSE LET T == Step(m, prog) IN
-            IF T.status = "unspec" THEN "skip" ELSE IF T.status = "encerr" THEN "ok" ELSE "bad"
+       ELSE IF T.status = "unspec" THEN "skip" ELSE IF T.status = "encerr" THEN "ok" ELSE "bad"
   ELSE IF e.ev = "cut" THEN "skip"
   ELSE "bad"                                           \* panic, timeout, anything unknown
 
@@ -101,6 +99,13 @@ LevelOf(how) == IF how \in {"run-O0", "compiled-O0"} THEN 0 ELSE 1
 ObsCap == 16     \* digits (base 256) beyond which the reference run is cut
 ObsFinal(e) == RunCapped(InitState(e.input), ProgOf(e.prog), e.bound, ObsCap)
 ObsBadRuns(e, ref) == {i \in DOMAIN e.runs : ~RunOK(e.runs[i], ref, LevelOf(e.runs[i].how))}
+\* the reference observation of one "obs" event and the recorded runs that disagree with it
+ObsVerdict(e) ==
+  LET theorem == e.tag = "catloop-by-theorem"     \* MC_Cat: CatLoop copies every non-empty input
+      fin == ObsFinal(e)
+      ref == IF theorem THEN [out |-> e.input, err |-> <<>>, ending |-> "end"] ELSE Obs(fin, ProgOf(e.prog))
+      unspec == IF theorem THEN FALSE ELSE fin.status = "unspec"
+  IN [ref |-> ref, badruns |-> IF unspec \/ ~e.text_ok THEN {} ELSE ObsBadRuns(e, ref)]
 
 \* ---- the trace machine
 Init == l = 1 /\ m = InitState(<<>>) /\ prog = <<>> /\ mode = "skip" /\ bad = 0
@@ -111,29 +116,26 @@ Step1 ==
      IF e.ev = "reset" THEN
         /\ prog' = ProgOf(e.prog) /\ m' = InitState(e.input) /\ mode' = "run" /\ UNCHANGED bad
      ELSE IF e.ev = "obs" THEN
-        LET theorem == e.tag = "catloop-by-theorem"     \* MC_Cat: CatLoop copies every non-empty input
-            fin == ObsFinal(e)
-            ref == IF theorem THEN [out |-> e.input, err |-> <<>>, ending |-> "end"] ELSE Obs(fin, ProgOf(e.prog))
-            unspec == IF theorem THEN FALSE ELSE fin.status = "unspec"
-            badruns == IF unspec \/ ~e.text_ok THEN {} ELSE ObsBadRuns(e, ref)
-        IN /\ (IF e.text_ok THEN TRUE ELSE PrintT(<<"TEXT-MISPARSED", l, ToJson(e.prog)>>))
-           /\ (IF badruns = {} THEN TRUE
+        \* (bound by \E, not LET: TLC evaluates a bound variable once, but evaluates a LET definition
+        \*  again in every conjunct of an action that uses it -- here, the whole reference run)
+        \E ov \in {ObsVerdict(e)} :
+           /\ (IF e.text_ok THEN TRUE ELSE PrintT(<<"TEXT-MISPARSED", l, ToJson(e.prog)>>))
+           /\ (IF ov.badruns = {} THEN TRUE
                ELSE PrintT(<<"MISMATCH", l, ToJson([ev |-> "obs", prog |-> e.prog, input |-> e.input, bound |-> e.bound,
-                                                   bad |-> [i \in badruns |-> e.runs[i]], tag |-> e.tag]), ToJson(ref)>>))
-           /\ bad' = bad + Cardinality(badruns)
+                                                   bad |-> [i \in ov.badruns |-> e.runs[i]], tag |-> e.tag]), ToJson(ov.ref)>>))
+           /\ bad' = bad + Cardinality(ov.badruns)
            /\ UNCHANGED <<m, prog, mode>>
      ELSE IF mode = "skip" THEN UNCHANGED <<m, prog, mode, bad>>
-     ELSE LET k == EventKind(e) IN
+     ELSE \E T \in {IF Running(m, prog) THEN Step(m, prog) ELSE m} : \E k \in {EventKind(e, T)} :
           /\ (IF k # "bad" THEN TRUE
               ELSE PrintT(<<"MISMATCH", l, ToJson(e),
                             ToJson(IF Running(m, prog)
-                                   THEN LET T == Step(m, prog) IN
-                                        [pc |-> m.pc, next |-> T.pc, cur |-> T.cur, out |-> T.out, err |-> T.err,
+                                   THEN [pc |-> m.pc, next |-> T.pc, cur |-> T.cur, out |-> T.out, err |-> T.err,
                                          status |-> T.status, st |-> [i \in DOMAIN T.st |-> [j \in DOMAIN T.st[i] |-> RToText(T.st[i][j])]]]
                                    ELSE [pc |-> m.pc, status |-> m.status, note |-> "run is over"])>>))
           /\ bad' = IF k = "bad" THEN bad + 1 ELSE bad
           /\ mode' = IF k = "ok" /\ e.ev = "step" THEN "run" ELSE "skip"
-          /\ m' = IF k = "ok" /\ e.ev = "step" THEN Step(m, prog) ELSE m
+          /\ m' = IF k = "ok" /\ e.ev = "step" THEN T ELSE m
           /\ UNCHANGED prog
   /\ l' = l + 1
 Next == Step1
